@@ -255,6 +255,16 @@ func (_this *Encoder) OnBigDecimalFloat(value *apd.Decimal) {
 		return
 	}
 
+	if value.Form == apd.Finite && value.Coeff.Sign() == 0 {
+		// Same encoding as a zero given as a decimal float.
+		if value.Negative {
+			_this.writer.WriteZero(-1)
+		} else {
+			_this.writer.WriteZero(1)
+		}
+		return
+	}
+
 	_this.writer.WriteBigDecimalFloat(value)
 }
 
